@@ -87,6 +87,23 @@ def atom_str(k):
     return str(k[1])
 
 
+def atom_params(k):
+    if k is None:
+        return set()
+    if k[0] == 'p':
+        return {k[1]}
+    if k[0] == 'pow2':
+        return set().union(*[atom_params(a) for a, _ in k[1]]) if k[1] else set()
+    if k[0] == 'call':
+        out = set()
+        for a in k[2]:
+            if a is not None:
+                for a2, _ in a:
+                    out |= atom_params(a2)
+        return out
+    return set()
+
+
 def lin_str(l):
     if not l:
         return '0'
@@ -364,6 +381,7 @@ def estimate_twin(ctx):
                         reach_est |= set(F.reachable_fns([h]))
             problems = []
             weak = []
+            undecided = []
             for k, v in sorted(A.items(), key=lambda kv: repr(kv[0])):
                 if k is None:
                     continue
@@ -379,6 +397,13 @@ def estimate_twin(ctx):
                     if alt:
                         have = max(alt)
                         weak.append(atom_str(k))
+                if have < v and have == 0:
+                    # the estimate has no identical atom; if it has a different atom over the same parameter(s) the two
+                    # are syntactically incomparable (e.g. a rounded size vs the raw size): not decided, not an alarm
+                    ps = atom_params(k)
+                    if ps and any(k2 is not None and k2 != k and (atom_params(k2) & ps) for k2 in Eb):
+                        undecided.append('%s vs %s' % (atom_str(k), ', '.join(atom_str(k2) for k2 in Eb if k2 is not None and atom_params(k2) & ps)))
+                        continue
                 if have < v:
                     txt = atom_str(k)
                     if (g.key, txt) in EXCEPTIONS:
@@ -389,6 +414,8 @@ def estimate_twin(ctx):
             ca, ce = A.get(None, Fraction(0)), Eb.get(None, Fraction(0))
             if ca > SMALL and ce + CONST_TOLERANCE < ca:
                 problems.append('constant part: %d bytes allocated, %d bytes estimated' % (ca, ce))
+            if undecided and not problems:
+                ctx.info(key + ':incomparable', e.loc(bi), 'not decided (different expressions over the same parameter): ' + '; '.join(undecided))
             if problems:
                 ctx.violation(key, e.loc(bi), 'estimate %s KiB vs allocations %s bytes in %s: %s' % (
                     lin_str(E), lin_str(A), g.key, '; '.join(problems)))
